@@ -27,7 +27,7 @@ META = {
         'images: BLOADed bytes equal BSAVEd bytes and nothing beyond the length is touched); Found/Skipped messages must list the tape in '
         'order; a file read directly from a fresh attach must skip exactly the files before it. Directed core in both tiers: every contents '
         'length 245..265 and 500..520 for each of the 6 file kinds on CAS, each followed by a second file (D9 shape: 254-byte data file + '
-        'follower), lengths 0..3 and 764..766; WAV: the record-boundary lengths. Random tapes of 1-4 files with random names, kinds, lengths '
+        'follower), lengths 0..3 and 764..766; zero-length / 1 / 255 / 256 / 257-byte files of every kind (empty data file, empty program, BSAVE of length 0) read and skipped over, first / middle / last on the tape, CAS and WAV; WAV: the record-boundary lengths. Random tapes of 1-4 files with random names, kinds, lengths '
         '0..1100.'),
     'level_note': (
         'Trusted: disk SAVE/LOAD and BSAVE/BLOAD to the native mount as observation channel (C15/C34), Python file I/O. Not pinned and not '
@@ -44,7 +44,7 @@ META = {
         'thorough': 'same sweep plus 755..775 and 1010..1030',
     },
     'require_counters': {'any': ['tapes', 'files_written', 'files_read_back', 'skipped_messages', 'found_messages', 'wav_tapes',
-                                 'boundary_length_files', 'direct_reads_with_skips', 'eof_checks']},
+                                 'boundary_length_files', 'direct_reads_with_skips', 'eof_checks', 'zero_length_memory_images', 'empty_programs']},
     'timeout': {'quick': 900, 'thorough': 10800},
 }
 
@@ -59,12 +59,13 @@ DATA_ALPHABET = bytes(b for b in range(1, 256) if b not in (0x1a, 0x0d, 0x0a))
 def plan(tier, seed):
     shards = []
     windows = [(245, 265), (500, 520)] if tier == 'quick' else [(245, 265), (500, 520), (755, 775), (1010, 1030)]
-    lengths = [0, 1, 2, 3, 764, 765, 766]
+    lengths = [0, 0, 1, 2, 3, 764, 765, 766]     # 0 twice: with different followers / tape positions
     for lo, hi in windows:
         lengths += list(range(lo, hi + 1))
     for kind in KINDS:
         shards.append({'kind': 'sweep', 'fkind': kind, 'part': KINDS.index(kind), 'lengths': lengths, 'fmt': 'CAS'})
     shards.append({'kind': 'sweep_wav', 'part': 0, 'lengths': [254, 255, 253] if tier == 'quick' else [253, 254, 255, 256, 509, 510]})
+    shards.append({'kind': 'empties', 'part': 0})
     if tier == 'quick':
         for i in range(6):
             shards.append({'kind': 'random', 'part': i, 'n': 70, 'fmt': 'CAS', 'maxlen': 1100})
@@ -242,13 +243,16 @@ def write_file(tape, box, idx, f):
         nlines = target // 180 + 1
         pad = max(0, target - 60)
         size = None
-        for attempt in range(5):
+        empty = f['len'] == 0          # length 0 = the empty program
+        if empty:
+            tape.res.count('empty_programs')
+        for attempt in range(1 if empty else 5):
             tape.ok(box, b'NEW', 'new')
-            for l in program_lines(f['seed'], pad, nlines):
+            for l in ([] if empty else program_lines(f['seed'], pad, nlines)):
                 tape.ok(box, l, 'enter-line')
             tape.ok(box, b'SAVE "C:%s"%s' % (ref.encode(), suffix), 'save-disk')
             size = contents_length(kind, tape.host(ref) or b'')
-            if size == target or pad + (target - size) < 0:
+            if empty or size == target or pad + (target - size) < 0:
                 break
             pad += target - size
         exp['ref'] = tape.host(ref)
@@ -259,15 +263,18 @@ def write_file(tape, box, idx, f):
         if kind == 'A':
             exp['boundary'] = (size + 1) % 255 == 0
     else:
-        n = max(1, f['len'])
+        n = f['len']          # 0 = zero-length memory image
         data = mem_bytes(f['seed'], n)
-        if f.get('first') is not None:
+        if n and f.get('first') is not None:
             data = bytes([f['first']]) + data[1:]
-        if f.get('last') is not None:
+        if n and f.get('last') is not None:
             data = data[:-1] + bytes([f['last']])
-        tape.put_host('SRC.BIN', b'\xfd' + struct.pack('<HHH', VID_SEG, VID_OFF, n) + data + b'\x1a')
         tape.ok(box, b'DEF SEG=&HB800', 'defseg')
-        tape.ok(box, b'BLOAD "C:SRC.BIN"', 'bload-disk')
+        if n:
+            tape.put_host('SRC.BIN', b'\xfd' + struct.pack('<HHH', VID_SEG, VID_OFF, n) + data + b'\x1a')
+            tape.ok(box, b'BLOAD "C:SRC.BIN"', 'bload-disk')
+        else:
+            tape.res.count('zero_length_memory_images')
         tape.ok(box, b'BSAVE "CAS1:%s", %d, %d' % (name, VID_OFF, n), 'bsave-tape')
         exp['data'] = data
         tape.lengths_written.add(n)
@@ -322,6 +329,9 @@ def read_file(tape, box, exp, skipped, retry_on_timeout=False):
             check_messages(tape, msgs, [(e['name'], e['letter'], 'Skipped') for e in before] + [(name, exp['letter'], 'Found')], 'retry of %r' % cmd)
             return
         if code:
+            if skipped:
+                tape.fail(tape.mech('search:error-or-not-found-while-skipping-over-earlier-files'),
+                          '%r (files before it: %r) -> %r' % (cmd, [(e['name'], e['kind'], e.get('size', len(e.get('data', b'')))) for e in skipped], out))
             tape.fail(tape.mech('read:%s:not-found-or-error-on-open' % tag), '%r -> %r' % (cmd, out))
         check_messages(tape, msgs, want, repr(cmd))
 
@@ -415,7 +425,7 @@ def read_file(tape, box, exp, skipped, retry_on_timeout=False):
         if got[n:] != b'\xee' * guard:
             tape.fail(tape.mech('read:memory-image:bytes-beyond-length-written'), 'BLOAD of %r (%d bytes) changed memory beyond its length' % (name, n))
         # independent spot check through PEEK
-        for off in sorted(set([0, n - 1, n // 2])):
+        for off in (sorted(set([0, n - 1, n // 2])) if n else []):
             v = box.ev(b'PEEK(%d)' % (VID_OFF + off))
             if v != data[off]:
                 tape.fail(tape.mech('read:memory-image:contents-differ'), 'PEEK(%d)=%r, wrote %d' % (VID_OFF + off, v, data[off]))
@@ -437,8 +447,19 @@ def run_tape(res, case):
         res.count('wav_tapes' if case['fmt'] == 'WAV' else 'cas_tapes')
         res.maxc('max_files_per_tape', len(case['files']))
         res.count('files_per_tape_total', len(case['files']))
+        # The reader sessions are judged independently: a failure while READING a file must not hide what
+        # happens when the same file is only SKIPPED OVER on the way to a later one (and vice versa).
+        def session(body):
+            try:
+                with tape.attach() as box:
+                    body(box)
+            except Stop:
+                pass
+            except harness.Internal as e:
+                res.violation(tape.mech(e.key), str(e), case)
+
         # ---- reader session 1: everything in tape order
-        with tape.attach() as box:
+        def in_order(box):
             for exp in tape.expected:
                 read_file(tape, box, exp, [])
             if case.get('rewind') and len(tape.expected) >= 1:
@@ -446,21 +467,25 @@ def run_tape(res, case):
                 exp = tape.expected[case['rewind'] % len(tape.expected)]
                 res.count('rewind_requests')
                 read_file(tape, box, exp, [], retry_on_timeout=True)
-        # ---- reader session 2: one file directly from a fresh attach
+        session(in_order)
+        # ---- reader session 2: one file directly from a fresh attach (everything before it is skipped over)
         k = case.get('direct')
         if k is not None and k < len(tape.expected):
-            with tape.attach() as box:
+            def direct(box):
                 read_file(tape, box, tape.expected[k], tape.expected[:k])
                 if k:
                     res.count('direct_reads_with_skips')
+            session(direct)
         # ---- reader session 3: read file j from a fresh attach, then ask for a file at or before it while
         #      other files still follow (the search runs over them to the end of the tape, rewinds, is repeated)
         if case.get('back') and case['back'][0] < len(tape.expected) - 1:
             j, t = case['back']
-            with tape.attach() as box:
+
+            def backward(box):
                 read_file(tape, box, tape.expected[j], tape.expected[:j])
                 res.count('backward_requests')
                 read_file(tape, box, tape.expected[t], [], retry_on_timeout=True)
+            session(backward)
     except Stop:
         pass
     except harness.Internal as e:
@@ -541,6 +566,24 @@ def run_shard(spec, res):
     if kind == 'sweep':
         cases = sweep_cases(spec['fkind'], spec['lengths'], spec['fmt'])
         res.count('sweep_lengths', len(cases))
+    elif kind == 'empties':
+        # zero-length / one-byte files of every kind: read in order, skipped over, first / middle / last on the tape, CAS and WAV
+        cases = []
+        for fmt in ('CAS', 'WAV'):
+            kinds = KINDS if fmt == 'CAS' else ['M', 'Dc', 'B', 'A']
+            for n in ((0, 1, 255, 256, 257) if fmt == 'CAS' else (0, 1)):
+                for fk in kinds:
+                    small = {'fkind': fk, 'name': 'E%d' % n, 'len': n, 'seed': n}
+                    a = {'fkind': 'Dl', 'name': 'BEFORE', 'len': 9, 'seed': 1}
+                    b = {'fkind': 'B' if fk != 'B' else 'Dc', 'name': 'AFTER', 'len': 70, 'seed': 2}
+                    cases.append({'fmt': fmt, 'files': [small, b], 'direct': 1})
+                    if fmt == 'CAS' or n == 0:
+                        cases.append({'fmt': fmt, 'files': [a, small, b], 'direct': 2, 'back': [1, 0]})
+                        cases.append({'fmt': fmt, 'files': [a, small], 'direct': 1})
+            if fmt == 'CAS':
+                allz = [{'fkind': fk, 'name': 'Z%s' % fk, 'len': 0, 'seed': 0} for fk in KINDS]
+                cases.append({'fmt': fmt, 'files': allz + [{'fkind': 'B', 'name': 'LAST', 'len': 80, 'seed': 3}], 'direct': 6})
+                cases.append({'fmt': fmt, 'files': list(reversed(allz)), 'direct': 5, 'rewind': 1})
     elif kind == 'sweep_wav':
         cases = []
         for n in spec['lengths']:
